@@ -50,6 +50,40 @@ Theorem C03_report_auth : forall (x : run) (r : result),
 Proof. exact report_auth. Qed.
 Print Assumptions C03_report_auth.
 
+(* ---- resumed handshakes -------------------------------------------------------------
+
+   [rrun]: either role resuming a cache entry of ANY shape (no key / empty key /
+   32-byte key / other length, AES-GCM or not; Authenticated attribute present or
+   not) against ANY reply of the peer (client role) or any lookup result (server
+   role).  Cache lookup, expiry and the command map are C06/C07's subject. *)
+
+(* success + own Authentication REQUIRED  =>  the session resumed was recorded as
+   an authenticated one *)
+Theorem C03_resumed_auth_required : forall (x : rrun) (r : result),
+  rrun_out x = Ok r -> c_auth (rrun_cfg x) = Rq ->
+  exists e, rrun_entry x = Some e /\ e_authed e = Some true.
+Proof. exact resumed_auth_required. Qed.
+Print Assumptions C03_resumed_auth_required.
+
+(* success + own Encryption or Integrity REQUIRED  =>  the stream really encrypts
+   with the cached key, which is a usable AES-GCM key *)
+Theorem C03_resumed_enc_required : forall (x : rrun) (r : result),
+  rrun_out x = Ok r -> (c_enc (rrun_cfg x) = Rq \/ c_integ (rrun_cfg x) = Rq) ->
+  g_encrypted r = true /\ g_key r = Some KCached /\
+  exists e, rrun_entry x = Some e /\ usable_key e = true.
+Proof. exact resumed_enc_required. Qed.
+Print Assumptions C03_resumed_enc_required.
+
+(* a resumed handshake reports the stream's real encryption state, runs no
+   authentication exchange, and reports the recorded authentication outcome *)
+Theorem C03_resumed_report : forall (x : rrun) (r : result),
+  rrun_out x = Ok r ->
+  r_enc r = g_encrypted r /\ (g_encrypted r = true <-> g_key r <> None) /\
+  g_ran r = [] /\
+  exists e, rrun_entry x = Some e /\ (r_auth r = true <-> e_authed e = Some true).
+Proof. exact resumed_report. Qed.
+Print Assumptions C03_resumed_report.
+
 (* ---- non-vacuity ----------------------------------------------------------------- *)
 
 (* an honest-looking server: the client with everything REQUIRED succeeds,
@@ -96,3 +130,15 @@ Example C03_ex_server_nokey :
              (mkC true (SLvl Op) (SLvl Op) [mCTB] [cAES] KMissing []))
   = Err [].
 Proof. vm_compute. reflexivity. Qed.
+
+(* resumed: an encrypted, authenticated session resumed by an all-REQUIRED client *)
+Example C03_ex_resumed_ok :
+  rrun_out (ResumeAsClient (mkCfg Rq Rq Rq [mCTB] [cAES] true) (mkE (EK32 true) (Some true)) (RReply RAuthorized))
+  = Ok (mkR true true mNONE [] true (Some KCached)).
+Proof. vm_compute. reflexivity. Qed.
+(* resumed: a key-less entry named explicitly is refused under Encryption REQUIRED,
+   an unauthenticated one under Authentication REQUIRED *)
+Example C03_ex_resumed_refused :
+  rrun_out (ResumeAsClient (mkCfg Op Rq Op [mCTB] [cAES] true) (mkE EKNone (Some true)) (RReply RAuthorized)) = Err []
+  /\ rrun_out (ResumeAsServer (mkCfg Rq Op Op [mCTB] [cAES] true) (Some (mkE (EK32 true) (Some false)))) = Err [].
+Proof. vm_compute. split; reflexivity. Qed.
